@@ -20,6 +20,7 @@ static void run(const mc::Args& a, const char* tn, int max_cap, mc::Report& tota
     ex.cfg.nvalues = 2;
     ex.cfg.faults = true;
     ex.run();
+    ex.long_traces(ex.total);
     exhaustive = exhaustive && ex.exhaustive;
     ex.total.counters[std::string("concrete_states_") + tn] = ex.states.size();
     ex.total.counters[std::string("abstract_states_") + tn] = ex.reps.size();
